@@ -295,13 +295,22 @@ theorem sendEvent_part {bnd : Bytes} {p : Part} {n : Str} {st : State} (hst : st
 
 def nameOf (p : Part) : Str := p.name.getD []
 
-/-- the closing delimiter -/
-def closing (bnd : Bytes) : Bytes := 13 :: 10 :: (delim bnd ++ [45, 45, 13, 10])
+variable {ep : Bytes}
+
+/-- the closing delimiter followed by whatever comes after `--boundary--` (`ep`; the encoder writes
+CRLF, a client may add an epilogue or omit the line break) -/
+def closing (bnd ep : Bytes) : Bytes := 13 :: 10 :: (delim bnd ++ 45 :: 45 :: ep)
+
+/-- what is left of `ep` once the closing delimiter (with its padding and line break) is consumed -/
+def epiOf (ep : Bytes) : Bytes := ep.drop ((ep.takeWhile isHws).length + lbLen (ep.dropWhile isHws))
+
+/-- what the encoder writes after `--boundary--` -/
+def stdEp : Bytes := [13, 10]
 
 /-- the body `encodeAll` produces -/
-def encBody (bnd : Bytes) : List Part → Bytes
-  | [] => closing bnd
-  | p :: ps => encPart bnd (nameOf p) p ++ encBody bnd ps
+def encBody (bnd ep : Bytes) : List Part → Bytes
+  | [] => closing bnd ep
+  | p :: ps => encPart bnd (nameOf p) p ++ encBody bnd ep ps
 
 theorem validPart_name {bnd : Bytes} {p : Part} (h : ValidPart bnd p) : p.name = some (nameOf p) := by
   unfold ValidPart at h
@@ -398,12 +407,12 @@ theorem encodeEvents_part {bnd : Bytes} {p : Part} {st : State} (hst : st = .par
 
 theorem encodeEvents_parts {bnd : Bytes} (ps : List Part) (hv : ∀ p ∈ ps, ValidPart bnd p) :
     ∀ st, st = .part ∨ st = .data →
-    encodeEvents bnd st (ps.flatMap partEvents ++ [.epilogue []]) = .ok (encBody bnd ps) := by
+    encodeEvents bnd st (ps.flatMap partEvents ++ [.epilogue []]) = .ok (encBody bnd stdEp ps) := by
   induction ps with
   | nil =>
     intro st hst
     rcases hst with h | h <;> subst h <;>
-      simp [encodeEvents, sendEvent, encBody, closing, crlf, delim]
+      simp [encodeEvents, sendEvent, encBody, closing, crlf, delim, stdEp]
   | cons p ps ih =>
     intro st hst
     have := ih (fun q hq => hv q (by simp [hq])) .data (Or.inr rfl)
@@ -420,12 +429,12 @@ def chunkedEvents (c : ChunkedPart) : List Event := partHeadEvent c.1 :: dataEve
 theorem encodeEvents_chunked_parts {bnd : Bytes} (cs : List ChunkedPart)
     (hv : ∀ c ∈ cs, ValidPart bnd c.1 ∧ c.2.1.flatten ++ c.2.2 = c.1.payload) :
     ∀ st, st = .part ∨ st = .data →
-    encodeEvents bnd st (cs.flatMap chunkedEvents ++ [.epilogue []]) = .ok (encBody bnd (cs.map (·.1))) := by
+    encodeEvents bnd st (cs.flatMap chunkedEvents ++ [.epilogue []]) = .ok (encBody bnd stdEp (cs.map (·.1))) := by
   induction cs with
   | nil =>
     intro st hst
     rcases hst with h | h <;> subst h <;>
-      simp [encodeEvents, sendEvent, encBody, closing, crlf, delim]
+      simp [encodeEvents, sendEvent, encBody, closing, crlf, delim, stdEp]
   | cons c cs ih =>
     intro st hst
     have := ih (fun q hq => hv q (by simp [hq])) .data (Or.inr rfl)
@@ -440,7 +449,7 @@ anywhere), `Epilogue(b"")` — encodes to the same bytes as one Data event per p
 theorem encodeEvents_chunked {bnd : Bytes} (cs : List ChunkedPart)
     (hv : ∀ c ∈ cs, ValidPart bnd c.1 ∧ c.2.1.flatten ++ c.2.2 = c.1.payload) :
     encodeEvents bnd .preamble (.preamble [] :: (cs.flatMap chunkedEvents ++ [.epilogue []])) =
-      .ok (encBody bnd (cs.map (·.1))) := by
+      .ok (encBody bnd stdEp (cs.map (·.1))) := by
   simp only [encodeEvents, sendEvent]
   simp only [beq_self_eq_true, if_true]
   rw [encodeEvents_chunked_parts cs hv .part (Or.inl rfl)]
@@ -448,7 +457,7 @@ theorem encodeEvents_chunked {bnd : Bytes} (cs : List ChunkedPart)
 
 /-- **what `encodeAll` writes** -/
 theorem encodeAll_eq {bnd : Bytes} (ps : List Part) (hv : ∀ p ∈ ps, ValidPart bnd p) :
-    encodeAll bnd ps = .ok (encBody bnd ps) := by
+    encodeAll bnd ps = .ok (encBody bnd stdEp ps) := by
   unfold encodeAll
   simp only [encodeEvents, sendEvent]
   simp only [beq_self_eq_true, if_true]
@@ -463,19 +472,19 @@ def mkD (bnd buf : Bytes) (st : State) (k : Nat) : Decoder :=
     maxMem := none, maxParts := none }
 
 /-- what follows `CRLF--boundary` in the encoder output for the remaining parts -/
-def tailOf (bnd : Bytes) : List Part → Bytes
-  | [] => [45, 45, 13, 10]
+def tailOf (bnd ep : Bytes) : List Part → Bytes
+  | [] => 45 :: 45 :: ep
   | p :: ps => 13 :: 10 :: (hdrBlock (nameOf p) p ++ 13 :: 10 ::
-      ((if p.payload.isEmpty then [] else 13 :: 10 :: p.payload) ++ encBody bnd ps))
+      ((if p.payload.isEmpty then [] else 13 :: 10 :: p.payload) ++ encBody bnd ep ps))
 
 /-- the buffer once that delimiter has been consumed -/
-def afterOf (bnd : Bytes) : List Part → Bytes
-  | [] => []
+def afterOf (bnd ep : Bytes) : List Part → Bytes
+  | [] => epiOf ep
   | p :: ps => hdrBlock (nameOf p) p ++ 13 :: 10 ::
-      ((if p.payload.isEmpty then [] else 13 :: 10 :: p.payload) ++ encBody bnd ps)
+      ((if p.payload.isEmpty then [] else 13 :: 10 :: p.payload) ++ encBody bnd ep ps)
 
 theorem encBody_eq (bnd : Bytes) (ps : List Part) :
-    encBody bnd ps = 13 :: 10 :: (delim bnd ++ tailOf bnd ps) := by
+    encBody bnd ep ps = 13 :: 10 :: (delim bnd ++ tailOf bnd ep ps) := by
   cases ps with
   | nil => rfl
   | cons p ps => simp [encBody, encPart, tailOf]
@@ -497,9 +506,9 @@ theorem hdrBlock_head (n : Str) (p : Part) : ∃ r, hdrBlock n p = 67 :: r := by
   | cons l t => exact ⟨r ++ 13 :: 10 :: joinCrlf (l :: t), by simp [joinCrlf_cons_cons, hr]⟩
 
 theorem afterDelim_tailOf (bnd : Bytes) (ps : List Part) :
-    AfterDelim (tailOf bnd ps) ps.isEmpty (afterOf bnd ps) := by
+    AfterDelim (tailOf bnd ep ps) ps.isEmpty (afterOf bnd ep ps) := by
   cases ps with
-  | nil => exact AfterDelim.closing []
+  | nil => exact AfterDelim.closing ep
   | cons p ps =>
     rcases hdrBlock_head (nameOf p) p with ⟨r, hr⟩
     simp only [tailOf, afterOf, hr, List.isEmpty_cons, List.cons_append]
@@ -507,21 +516,21 @@ theorem afterDelim_tailOf (bnd : Bytes) (ps : List Part) :
 
 /-- PREAMBLE: the first delimiter is at offset 0 -/
 theorem step_preamble (bnd : Bytes) (ps : List Part) (k : Nat) :
-    nextEvent (mkD bnd (encBody bnd ps) .preamble k) =
-      .ok (.preamble [], mkD bnd (afterOf bnd ps) (afterDelim ps.isEmpty) k) := by
+    nextEvent (mkD bnd (encBody bnd ep ps) .preamble k) =
+      .ok (.preamble [], mkD bnd (afterOf bnd ep ps) (afterDelim ps.isEmpty) k) := by
   rcases matchTail_afterDelim (afterDelim_tailOf bnd ps) with ⟨m, hm, hdrop⟩
-  have hmatch : matchDelimAt bnd true (encBody bnd ps) = some (2 + (bnd.length + 2) + m, ps.isEmpty) := by
+  have hmatch : matchDelimAt bnd true (encBody bnd ep ps) = some (2 + (bnd.length + 2) + m, ps.isEmpty) := by
     rw [encBody_eq]
     apply matchDelimAt_iff'.2
-    exact ⟨tailOf bnd ps, m, by simp, by simp [lbLen_crlf], hm, by simp [lbLen_crlf]⟩
-  have hsearch : searchDelimFrom bnd true 0 (encBody bnd ps) = some (0, 2 + (bnd.length + 2) + m, ps.isEmpty) := by
+    exact ⟨tailOf bnd ep ps, m, by simp, by simp [lbLen_crlf], hm, by simp [lbLen_crlf]⟩
+  have hsearch : searchDelimFrom bnd true 0 (encBody bnd ep ps) = some (0, 2 + (bnd.length + 2) + m, ps.isEmpty) := by
     rw [searchDelimFrom_eq_shift]
     simp only [List.drop_zero]
     rw [encBody_eq] at hmatch ⊢
     rw [searchDelim_cons_some hmatch]; rfl
-  have hd : (encBody bnd ps).drop (2 + (bnd.length + 2) + m) = afterOf bnd ps := by
+  have hd : (encBody bnd ep ps).drop (2 + (bnd.length + 2) + m) = afterOf bnd ep ps := by
     rw [encBody_eq]
-    have e : (13 :: 10 :: (delim bnd ++ tailOf bnd ps) : Bytes) = [13, 10] ++ (delim bnd ++ tailOf bnd ps) := rfl
+    have e : (13 :: 10 :: (delim bnd ++ tailOf bnd ep ps) : Bytes) = [13, 10] ++ (delim bnd ++ tailOf bnd ep ps) := rfl
     have e2 : 2 + (bnd.length + 2) + m = (m + (delim bnd).length) + ([13, 10] : Bytes).length := by
       simp [delim]; omega
     rw [e, e2, drop_add_append, drop_add_append, hdrop]
@@ -584,18 +593,18 @@ def decodedPart (p : Part) : Part :=
   { p with headers := cdHeader (nameOf p) p.filename :: p.headers }
 
 /-- the buffer after the CRLF that ends the last header line of part `p` -/
-def dataOf (bnd : Bytes) (p : Part) (ps : List Part) : Bytes :=
-  (if p.payload.isEmpty then [] else 13 :: 10 :: p.payload) ++ encBody bnd ps
+def dataOf (bnd ep : Bytes) (p : Part) (ps : List Part) : Bytes :=
+  (if p.payload.isEmpty then [] else 13 :: 10 :: p.payload) ++ encBody bnd ep ps
 
 theorem afterOf_cons (bnd : Bytes) (p : Part) (ps : List Part) :
-    afterOf bnd (p :: ps) = hdrBlock (nameOf p) p ++ 13 :: 10 :: dataOf bnd p ps := rfl
+    afterOf bnd ep (p :: ps) = hdrBlock (nameOf p) p ++ 13 :: 10 :: dataOf bnd ep p ps := rfl
 
 theorem dataOf_blank (bnd : Bytes) (p : Part) (ps : List Part) :
-    ∃ Z, dataOf bnd p ps = 13 :: 10 :: Z := by
+    ∃ Z, dataOf bnd ep p ps = 13 :: 10 :: Z := by
   unfold dataOf
   cases hp : p.payload.isEmpty with
   | true => simp only [if_true, List.nil_append]; rw [encBody_eq]; exact ⟨_, rfl⟩
-  | false => exact ⟨p.payload ++ encBody bnd ps, by simp⟩
+  | false => exact ⟨p.payload ++ encBody bnd ep ps, by simp⟩
 
 theorem allHeadersOk {bnd : Bytes} {p : Part} (hv : ValidPart bnd p) :
     ∀ kv ∈ cdHeader (nameOf p) p.filename :: p.headers, HeaderOk kv := by
@@ -618,8 +627,8 @@ theorem lookup_filename (n : Str) (f : Option Str) :
 
 /-- PART: the header block is found, parsed, and the Field / File event carries the right names -/
 theorem step_part {bnd : Bytes} (p : Part) (ps : List Part) (k : Nat) (hv : ValidPart bnd p) :
-    nextEvent (mkD bnd (afterOf bnd (p :: ps)) .part k) =
-      .ok (partHeadEvent (decodedPart p), mkD bnd (dataOf bnd p ps) .dataStart (k + 1)) := by
+    nextEvent (mkD bnd (afterOf bnd ep (p :: ps)) .part k) =
+      .ok (partHeadEvent (decodedPart p), mkD bnd (dataOf bnd ep p ps) .dataStart (k + 1)) := by
   have hf := validPart_facts hv
   have hok := allHeadersOk hv
   have hlines : ∀ l ∈ (cdHeader (nameOf p) p.filename :: p.headers).map lineOf, LineOk l := by
@@ -627,16 +636,16 @@ theorem step_part {bnd : Bytes} (p : Part) (ps : List Part) (k : Nat) (hv : Vali
     rcases List.mem_map.1 hl with ⟨kv, hkv, rfl⟩
     exact lineOk_of_headerOk (hok kv hkv)
   rcases dataOf_blank bnd p ps with ⟨Z, hZ⟩
-  have hblank : searchBlankFrom 0 (afterOf bnd (p :: ps)) =
+  have hblank : searchBlankFrom 0 (afterOf bnd ep (p :: ps)) =
       some ((hdrBlock (nameOf p) p).length, (hdrBlock (nameOf p) p).length + 4) := by
     rw [searchBlankFrom_eq_shift, afterOf_cons, hZ]
     simp only [List.drop_zero, hdrBlock]
     rw [searchBlank_block _ Z (by simp) hlines]
     simp [shift2]
-  have htake : (afterOf bnd (p :: ps)).take (hdrBlock (nameOf p) p).length = hdrBlock (nameOf p) p := by
+  have htake : (afterOf bnd ep (p :: ps)).take (hdrBlock (nameOf p) p).length = hdrBlock (nameOf p) p := by
     rw [afterOf_cons]; simp
-  have hdrop : (afterOf bnd (p :: ps)).drop
-      (((hdrBlock (nameOf p) p).length + ((hdrBlock (nameOf p) p).length + 4)) / 2) = dataOf bnd p ps := by
+  have hdrop : (afterOf bnd ep (p :: ps)).drop
+      (((hdrBlock (nameOf p) p).length + ((hdrBlock (nameOf p) p).length + 4)) / 2) = dataOf bnd ep p ps := by
     have : ((hdrBlock (nameOf p) p).length + ((hdrBlock (nameOf p) p).length + 4)) / 2 =
         2 + (hdrBlock (nameOf p) p).length := by omega
     rw [this, afterOf_cons, drop_add_append]
@@ -646,8 +655,8 @@ theorem step_part {bnd : Bytes} (p : Part) (ps : List Part) (k : Nat) (hv : Vali
   have hopt := FormOptions.parseOptions_disposition_lemma (nameOf p) p.filename hf.1
     (fun x hx => (hf.2.2.1 x hx).1)
   have hnm := validPart_name hv
-  have hstep : step (mkD bnd (afterOf bnd (p :: ps)) .part k) =
-      .ok (partHeadEvent (decodedPart p), mkD bnd (dataOf bnd p ps) .dataStart (k + 1)) := by
+  have hstep : step (mkD bnd (afterOf bnd ep (p :: ps)) .part k) =
+      .ok (partHeadEvent (decodedPart p), mkD bnd (dataOf bnd ep p ps) .dataStart (k + 1)) := by
     unfold step
     simp only [mkD]
     rw [hblank]
@@ -671,11 +680,11 @@ theorem step_part {bnd : Bytes} (p : Part) (ps : List Part) (k : Nat) (hv : Vali
 /-- DATA_START: the payload and the delimiter that ends it -/
 theorem step_dataStart {bnd : Bytes} (hb : BoundaryOk bnd) (p : Part) (ps : List Part) (k : Nat)
     (hv : ValidPart bnd p) :
-    nextEvent (mkD bnd (dataOf bnd p ps) .dataStart k) =
-      .ok (.data p.payload false, mkD bnd (afterOf bnd ps) (afterDelim ps.isEmpty) k) := by
+    nextEvent (mkD bnd (dataOf bnd ep p ps) .dataStart k) =
+      .ok (.data p.payload false, mkD bnd (afterOf bnd ep ps) (afterDelim ps.isEmpty) k) := by
   have hf := validPart_facts hv
   -- reference semantics of this stretch of the stream
-  have hspec : dataSpec bnd true (dataOf bnd p ps) = some (p.payload, ps.isEmpty, afterOf bnd ps) := by
+  have hspec : dataSpec bnd true (dataOf bnd ep p ps) = some (p.payload, ps.isEmpty, afterOf bnd ep ps) := by
     unfold dataOf
     rw [encBody_eq]
     cases hp : p.payload with
@@ -684,14 +693,14 @@ theorem step_dataStart {bnd : Bytes} (hb : BoundaryOk bnd) (p : Part) (ps : List
       exact dataSpec_encoded_empty (bnd := bnd) _ (afterDelim_tailOf bnd ps)
     | cons a t =>
       simp only [List.isEmpty_cons, Bool.false_eq_true, if_false]
-      have := dataSpec_encoded hb (a :: t) (tailOf bnd ps) (by rw [← hp]; exact hf.2.2.2.2.2)
+      have := dataSpec_encoded hb (a :: t) (tailOf bnd ep ps) (by rw [← hp]; exact hf.2.2.2.2.2)
         (afterDelim_tailOf bnd ps)
       simpa using this
-  have hlb : lbLen (dataOf bnd p ps) = 2 := by
+  have hlb : lbLen (dataOf bnd ep p ps) = 2 := by
     rcases dataOf_blank bnd p ps with ⟨Z, hZ⟩
     rw [hZ]; exact lbLen_crlf _
   rw [dataSpec_true] at hspec
-  cases hs : searchDelim bnd false (dataOf bnd p ps) with
+  cases hs : searchDelim bnd false (dataOf bnd ep p ps) with
   | none => rw [hs] at hspec; simp at hspec
   | some v =>
     rcases v with ⟨s, e, f⟩
@@ -701,12 +710,12 @@ theorem step_dataStart {bnd : Bytes} (hb : BoundaryOk bnd) (p : Part) (ps : List
     have hbd := searchDelim_bounds hs
     have he0 : e ≠ 0 := by omega
     have hcut := dataCut_of_search hs
-    have hds : dataStep bnd true (dataOf bnd p ps) = .ok (p.payload, afterOf bnd ps, false, some ps.isEmpty) := by
+    have hds : dataStep bnd true (dataOf bnd ep p ps) = .ok (p.payload, afterOf bnd ep ps, false, some ps.isEmpty) := by
       rw [dataStep_true (by omega), hcut]
       simp only [he0, if_false]
       rw [hpay, hrest, hfe]
-    have hstep : step (mkD bnd (dataOf bnd p ps) .dataStart k) =
-        .ok (.data p.payload false, mkD bnd (afterOf bnd ps) (afterDelim ps.isEmpty) k) := by
+    have hstep : step (mkD bnd (dataOf bnd ep p ps) .dataStart k) =
+        .ok (.data p.payload false, mkD bnd (afterOf bnd ep ps) (afterDelim ps.isEmpty) k) := by
       unfold step
       simp only [mkD, stepData, hds]
       simp
@@ -737,17 +746,17 @@ theorem drain_head {d d' : Decoder} {q : Part} (fuel : Nat) (acc : List Event)
 theorem drain_parts {bnd : Bytes} (hb : BoundaryOk bnd) (ps : List Part) :
     ∀ (fuel : Nat) (acc : List Event) (k : Nat), (∀ p ∈ ps, ValidPart bnd p) →
       2 * ps.length + 1 ≤ fuel →
-      drain fuel (mkD bnd (afterOf bnd ps) (afterDelim ps.isEmpty) k) acc =
+      drain fuel (mkD bnd (afterOf bnd ep ps) (afterDelim ps.isEmpty) k) acc =
         { events := acc.reverse ++ ps.flatMap (fun p => partEvents (decodedPart p)),
           err := none,
-          dec := mkD bnd [] .epilogue (k + ps.length) } := by
+          dec := mkD bnd (epiOf ep) .epilogue (k + ps.length) } := by
   induction ps with
   | nil =>
     intro fuel acc k _ hf
     cases fuel with
     | zero => omega
     | succ fuel =>
-      have : nextEvent (mkD bnd [] .epilogue k) = .ok (.needData, mkD bnd [] .epilogue k) := by
+      have : nextEvent (mkD bnd (epiOf ep) .epilogue k) = .ok (.needData, mkD bnd (epiOf ep) .epilogue k) := by
         simp [nextEvent, step, mkD]
       simp [drain, afterOf, afterDelim, this]
   | cons p ps ih =>
@@ -755,14 +764,14 @@ theorem drain_parts {bnd : Bytes} (hb : BoundaryOk bnd) (ps : List Part) :
     have hvp := hv p (by simp)
     match fuel, hf with
     | fuel + 2, hf =>
-      have h1 := step_part p ps k hvp
-      have h2 := step_dataStart hb p ps (k + 1) hvp
+      have h1 := step_part (ep := ep) p ps k hvp
+      have h2 := step_dataStart (ep := ep) hb p ps (k + 1) hvp
       have e : afterDelim (p :: ps).isEmpty = .part := rfl
       rw [e, drain_head _ _ h1, drain_data _ _ h2,
         ih fuel _ (k + 1) (fun q hq => hv q (by simp [hq])) (by simp at hf; omega)]
       simp [partEvents, decodedPart, Nat.add_assoc, Nat.add_comm 1]
 
-theorem encBody_length (bnd : Bytes) (ps : List Part) : 2 * ps.length + 2 ≤ (encBody bnd ps).length := by
+theorem encBody_length (bnd : Bytes) (ps : List Part) : 2 * ps.length + 2 ≤ (encBody bnd ep ps).length := by
   induction ps with
   | nil => simp [encBody, closing]
   | cons p ps ih => simp [encBody, encPart] at ih ⊢; omega
@@ -782,9 +791,9 @@ theorem partsGo_part (q : Part) (hq : q.isFile = q.filename.isSome) (cur : Optio
     subst hq
     simp [partEvents, partHeadEvent, partsGo]
 
-theorem partsGo_all (qs : List Part) (hq : ∀ q ∈ qs, q.isFile = q.filename.isSome) :
+theorem partsGo_all (qs : List Part) (x : Bytes) (hq : ∀ q ∈ qs, q.isFile = q.filename.isSome) :
     ∀ cur : Option Part,
-      partsGo cur (qs.flatMap partEvents ++ [.epilogue []]) = cur.toList ++ qs := by
+      partsGo cur (qs.flatMap partEvents ++ [.epilogue x]) = cur.toList ++ qs := by
   induction qs with
   | nil => intro cur; cases cur <;> simp [partsGo]
   | cons q qs ih =>
@@ -799,9 +808,9 @@ theorem flatMap_decoded (ps : List Part) :
   | nil => rfl
   | cons p ps ih => simp only [List.flatMap_cons, List.map_cons, ih]
 
-theorem partsGo_decoded {bnd : Bytes} (ps : List Part) (cur : Option Part)
+theorem partsGo_decoded {bnd : Bytes} (ps : List Part) (cur : Option Part) (x : Bytes)
     (hv : ∀ p ∈ ps, ValidPart bnd p) :
-    partsGo cur (ps.flatMap (fun p => partEvents (decodedPart p)) ++ [.epilogue []]) =
+    partsGo cur (ps.flatMap (fun p => partEvents (decodedPart p)) ++ [.epilogue x]) =
       cur.toList ++ ps.map decodedPart := by
   rw [flatMap_decoded]
   apply partsGo_all
@@ -812,34 +821,32 @@ theorem partsGo_decoded {bnd : Bytes} (ps : List Part) (cur : Option Part)
 /-- **decode ∘ encode = id (single shot).** -/
 theorem decode_encode_lemma {bnd : Bytes} (hb : BoundaryOk bnd) (ps : List Part)
     (hv : ∀ p ∈ ps, ValidPart bnd p) :
-    encodeAll bnd ps = .ok (encBody bnd ps) ∧
-    (decodeChunks bnd none none [encBody bnd ps]).err = none ∧
-    partsOf (decodeChunks bnd none none [encBody bnd ps]).events = ps.map decodedPart := by
-  refine ⟨encodeAll_eq ps hv, ?_⟩
+    (decodeChunks bnd none none [encBody bnd ep ps]).err = none ∧
+    partsOf (decodeChunks bnd none none [encBody bnd ep ps]).events = ps.map decodedPart := by
   -- first chunk: the whole body
-  have hrecv : receive (mkDecoder bnd none none) (some (encBody bnd ps)) =
-      .ok (mkD bnd (encBody bnd ps) .preamble 0) := by
+  have hrecv : receive (mkDecoder bnd none none) (some (encBody bnd ep ps)) =
+      .ok (mkD bnd (encBody bnd ep ps) .preamble 0) := by
     simp [receive, mkDecoder, mkD]
-  have hlen := encBody_length bnd ps
-  have hfeed1 : feed (mkDecoder bnd none none) (some (encBody bnd ps)) =
+  have hlen := encBody_length (ep := ep) bnd ps
+  have hfeed1 : feed (mkDecoder bnd none none) (some (encBody bnd ep ps)) =
       { events := Event.preamble [] :: ps.flatMap (fun p => partEvents (decodedPart p)),
-        err := none, dec := mkD bnd [] .epilogue (0 + ps.length) } := by
+        err := none, dec := mkD bnd (epiOf ep) .epilogue (0 + ps.length) } := by
     unfold feed
     rw [hrecv]
     simp only [drainFuel, mkD]
-    have : (encBody bnd ps).length + 3 = ((encBody bnd ps).length + 2) + 1 := by omega
+    have : (encBody bnd ep ps).length + 3 = ((encBody bnd ep ps).length + 2) + 1 := by omega
     rw [this]
-    have hp := step_preamble bnd ps 0
-    have hdp := drain_parts hb ps ((encBody bnd ps).length + 2) [Event.preamble []] 0 hv (by omega)
+    have hp := step_preamble (ep := ep) bnd ps 0
+    have hdp := drain_parts (ep := ep) hb ps ((encBody bnd ep ps).length + 2) [Event.preamble []] 0 hv (by omega)
     simp only [mkD] at hp hdp
     rw [drain_pre _ _ hp, hdp]
     simp
-  have hfeed2 : feed (mkD bnd [] .epilogue (0 + ps.length)) none =
-      { events := [Event.epilogue []], err := none,
+  have hfeed2 : feed (mkD bnd (epiOf ep) .epilogue (0 + ps.length)) none =
+      { events := [Event.epilogue (epiOf ep)], err := none,
         dec := { mkD bnd [] .epilogue (0 + ps.length) with complete := true, state := .complete } } := by
     simp [feed, receive, mkD, drainFuel, drain, nextEvent, step]
-  have hrun : decodeChunks bnd none none [encBody bnd ps] =
-      { events := Event.preamble [] :: (ps.flatMap (fun p => partEvents (decodedPart p)) ++ [Event.epilogue []]),
+  have hrun : decodeChunks bnd none none [encBody bnd ep ps] =
+      { events := Event.preamble [] :: (ps.flatMap (fun p => partEvents (decodedPart p)) ++ [Event.epilogue (epiOf ep)]),
         err := none,
         dec := { mkD bnd [] .epilogue (0 + ps.length) with complete := true, state := .complete } } := by
     simp only [decodeChunks, feedAll, hfeed1, hfeed2]
@@ -847,7 +854,7 @@ theorem decode_encode_lemma {bnd : Bytes} (hb : BoundaryOk bnd) (ps : List Part)
   rw [hrun]
   refine ⟨rfl, ?_⟩
   simp only [partsOf, partsGo]
-  rw [partsGo_decoded ps none hv]
+  rw [partsGo_decoded ps none _ hv]
   simp
 
 end Wz.Multipart
